@@ -29,6 +29,16 @@ from typing import Dict, List, Optional, Set
 HERE = os.path.dirname(os.path.dirname(os.path.abspath(__file__)))
 BASELINE = os.path.join(HERE, "ref", "baseline_names.json")
 MAX_PASSES = 5
+# parameters the pinned tree itself passes by keyword stay keywords (rules read them by name): ref/baseline_names.json "kwcalls"
+def _kwcalls() -> Dict[str, List[str]]:
+    try:
+        with open(BASELINE) as fh:
+            return json.load(fh).get("kwcalls", {})
+    except OSError:
+        return {}
+
+
+KWCALLS = _kwcalls()
 MAX_HELPER_STMTS = 60
 
 
@@ -964,6 +974,32 @@ class Inliner:
                     d = n.args[0]
                     return at(ast.Tuple(elts=d.elts, ctx=ast.Load()) if f.id == "tuple" else ast.List(elts=d.elts, ctx=ast.Load()), n)
                 q = sc.resolve_call(n)
+                if q in me.project.funcs and q not in me.new_funcs and fi is not None:
+                    # f(_Point(x=a, y=b)) where f belongs to the pinned package and _Point is a namedtuple record: f((a, b))
+                    from .normalize2 import record_fields
+                    for idx, a0 in enumerate(list(n.args)):
+                        if isinstance(a0, ast.Call) and isinstance(a0.func, ast.Name) and not any(isinstance(x, ast.Starred) for x in a0.args) and not any(k.arg is None for k in a0.keywords):
+                            fs = record_fields(a0.func, fi.module.top_assigns, fi.module.tree)
+                            if fs is not None and len(a0.args) + len(a0.keywords) == len(fs) and [k.arg for k in a0.keywords] == fs[len(a0.args):]:
+                                n.args[idx] = at(ast.Tuple(elts=list(a0.args) + [k.value for k in a0.keywords], ctx=ast.Load()), a0)
+                                count[0] += 1
+                if q in me.project.funcs and n.keywords and not any(k.arg is None for k in n.keywords) and not any(isinstance(a, ast.Starred) for a in n.args):
+                    # f(a, large=x) -> f(a, x) when `large` is the next positional parameter of a function of the package: one spelling of a call
+                    cal = me.project.funcs[q]
+                    a_ = cal.node.args
+                    if not a_.vararg:
+                        params = [x.arg for x in a_.posonlyargs + a_.args]
+                        if cal.cls and params and isinstance(n.func, ast.Attribute) and not any(isinstance(d, ast.Name) and d.id == "staticmethod" for d in cal.node.decorator_list):
+                            params = params[1:]
+                        kw = {k.arg: k for k in n.keywords}
+                        moved = 0
+                        while len(n.args) < len(params) and params[len(n.args)] in kw and len(n.args) >= len(a_.posonlyargs) - (1 if params is not None and len(params) < len(a_.posonlyargs + a_.args) else 0) \
+                                and n.keywords and n.keywords[0].arg == params[len(n.args)] and params[len(n.args)] not in KWCALLS.get(q, ()):
+                            k = n.keywords.pop(0)
+                            n.args.append(k.value)
+                            moved += 1
+                        if moved:
+                            count[0] += 1
                 if q in me.new_funcs and (fi is None or q != fi.qualname):
                     e = me.as_expression(q, n, sc, fi)
                     if e is not None and not (plain_only and contains(e, ast.IfExp) and not contains(ast.Module(body=body_without_doc(me.new_funcs[q].node), type_ignores=[]), ast.IfExp)):
@@ -1376,6 +1412,9 @@ def desugar(fn: ast.AST) -> int:
             if isinstance(st, (ast.FunctionDef, ast.AsyncFunctionDef, ast.ClassDef)):
                 out.append(st)
                 continue
+            if isinstance(st, ast.AnnAssign) and isinstance(st.target, ast.Name) and st.value is not None and st.simple:
+                st = ast.copy_location(ast.Assign(targets=[st.target], value=st.value), st)        # x: T = v  is  x = v  for everything analysed here
+                count[0] += 1
             if isinstance(st, ast.Match):
                 r = match_to_if(st)
                 if r is not None:
